@@ -4,8 +4,8 @@ CONSTANTS
   Requesters = {"r1"}
   MaxDebounce = 1
   MaxEvents = 0
-  MaxProbeFail = 1
-  MaxCtlFail = 0
+  MaxProbeFail = 0
+  MaxCtlFail = 1
   MaxAddHost = 0
   OnlyDebouncer = FALSE
   WithControl = TRUE
